@@ -229,6 +229,26 @@ func fieldIndex(t types.Type, name string) int {
 
 func nop0(fr *frame, args []value) (value, bool) { return nil, true }
 
+// fprint delivers formatted text to an io.Writer of the target program by
+// calling its Write method; writes to *os.File (stdout/stderr) are dropped.
+func fprint(fr *frame, w value, text string) value {
+	wi, ok := w.(iface)
+	if !ok || wi.t == nil {
+		return tuple{0, iface{}}
+	}
+	if p, ok := wi.t.(*types.Pointer); ok {
+		if n, ok := p.Elem().(*types.Named); ok && n.Obj().Pkg() != nil && n.Obj().Pkg().Path() == "os" {
+			return tuple{len(text), iface{}}
+		}
+	}
+	m := methodOf(fr.i, wi.t, "Write")
+	if m == nil {
+		unsupported("fmt.Fprint* to a writer without Write: %s", wi.t)
+	}
+	fn := fr.i.prog.LookupMethod(wi.t, m.Pkg(), "Write")
+	return call(fr.i, fr, token.NoPos, fn, []value{wi.v, strBytes(text)})
+}
+
 func printNop(fr *frame, args []value) (value, bool) {
 	return tuple{0, iface{}}, true
 }
@@ -264,9 +284,15 @@ func init() {
 		"fmt.Printf":   printNop,
 		"fmt.Println":  printNop,
 		"fmt.Print":    printNop,
-		"fmt.Fprintf":  printNop,
-		"fmt.Fprintln": printNop,
-		"fmt.Fprint":   printNop,
+		"fmt.Fprintf": func(fr *frame, args []value) (value, bool) {
+			return fprint(fr, args[0], fmt.Sprintf(concreteString(args[1]), nativeArgs(fr, args[2])...)), true
+		},
+		"fmt.Fprintln": func(fr *frame, args []value) (value, bool) {
+			return fprint(fr, args[0], fmt.Sprintln(nativeArgs(fr, args[1])...)), true
+		},
+		"fmt.Fprint": func(fr *frame, args []value) (value, bool) {
+			return fprint(fr, args[0], fmt.Sprint(nativeArgs(fr, args[1])...)), true
+		},
 
 		"(*sync.Pool).Get": func(fr *frame, args []value) (value, bool) {
 			p := args[0].(*value)
